@@ -3,5 +3,7 @@ CONSTANTS LeafSet = "std"
           Deep = TRUE
           Wide3 = FALSE
           TableWide = TRUE
+          StrangeWide = TRUE
+          Only = "all"
 INIT Init
 NEXT NextGen
